@@ -1,5 +1,6 @@
 SPECIFICATION Spec
 CONSTANTS
+  WithDerive = FALSE
   Contents <- TheContents
   EntryPoints <- TheEntryPoints
   Extra <- TheExtra
